@@ -129,6 +129,43 @@ def run(chk):
         if got != want:
             chk.violation("single-bit-weight", "payload with only the denoted bit set does not decode to the referred bit's weight",
                           dict(le=le, size=size, sb=sb, bn=bn, sl=sl, byte=byte, bit=bit), want, got)
+    # ---- histories on ONE signal object: queries interleaved with edits through the public attributes ----
+    # (get_startbit must describe the signal as it is NOW: width, position and byte order may have been assigned directly,
+    #  as Frame.compress and the readers do, with no set_startbit call in between)
+    nhist = 600 if not thorough else 8000
+    for _ in range(nhist):
+        le = chk.rng.random() < 0.5
+        s = Signal("s", size=chk.rng.randrange(1, 65), is_little_endian=le, start_bit=chk.rng.randrange(0, 448))
+        trace = [("new", s.start_bit, s.size, s.is_little_endian)]
+        for step in range(chk.rng.randrange(3, 8)):
+            op = chk.rng.choice(["get", "get", "size", "start", "flip", "set"])
+            if op == "size":
+                s.size = chk.rng.randrange(1, 65)
+            elif op == "start":
+                s.start_bit = chk.rng.randrange(0, 448)
+            elif op == "flip":
+                s.is_little_endian = not s.is_little_endian
+            elif op == "set":
+                try:
+                    s.set_startbit(chk.rng.randrange(64, 448), bitNumbering=chk.rng.choice(BN), startLittle=chk.rng.choice(SL))
+                except Err:
+                    pass
+            trace.append((op, s.start_bit, s.size, s.is_little_endian))
+            if op != "get":
+                continue
+            fresh = Signal("s", size=s.size, is_little_endian=s.is_little_endian, start_bit=s.start_bit)
+            for (b2, l2) in NOT6:
+                g = s.get_startbit(bit_numbering=b2, start_little=l2)
+                g_pos = s.get_startbit(b2, l2)
+                gf = fresh.get_startbit(bit_numbering=b2, start_little=l2)
+                exp = spec_bit_coord(s.is_little_endian, s.size, s.start_bit, ref_bit(s.is_little_endian, s.size, l2))
+                chk.case(("hist", tuple(trace), b2, l2), True)
+                chk.count("get-after-attribute-edit" if any(t[0] in ("size", "start", "flip") for t in trace) else "get-in-history")
+                if g != gf or g_pos != g or coord(eff_lsb0(s.is_little_endian, b2), g) != exp:
+                    chk.violation("get-after-edit", "get_startbit on an edited signal differs from a fresh signal with the same definition "
+                                  "(the answer does not denote the signal's current bit)",
+                                  dict(history=trace, get=(b2, l2)), gf, (g, g_pos))
+                    break
     chk.sample({"le": False, "size": 12, "set": [7, 1, False], "internal": 0, "gets(None/0/1 x msb/lsb)": [0, 11, 0, 11, 7, 12]})
     chk.exhaustive = True
     if not ok:
